@@ -47,6 +47,23 @@ use super::*;
 //%include haloswap_asset.rs
 }
 pub use asset::*;
+pub mod pairmsg {
+use super::*;
+#[allow(unused_imports)] use super::shim::Decimal;
+//%include haloswap_pairmsg.rs
+}
+pub mod factoryq {
+use super::*;
+//%include haloswap_factoryq.rs
+}
+pub mod querier {
+use super::*;
+#[allow(unused_imports)] use super::shim::Decimal;
+use super::factoryq::{NativeTokenDecimalsResponse, QueryMsg as FactoryQueryMsg};
+use super::pairmsg::{QueryMsg as PairQueryMsg, ReverseSimulationResponse, SimulationResponse};
+//%include haloswap_querier.rs
+}
+pub use querier::*;
 pub mod formulas_lp {
 use super::*;
 #[allow(unused_imports)] use super::shim::Decimal;
@@ -56,8 +73,8 @@ pub use formulas_lp::*;
 pub mod pair {
 use super::*;
 #[allow(unused_imports)] use super::shim::Decimal;
+use super::pairmsg::*;
 broadcast use {axiom_string_eq_spec, axiom_string_obeys_eq, axiom_to_string_string, group_q_errors, vstd::arithmetic::mul::lemma_mul_is_commutative};
-//%include haloswap_pairmsg.rs
 //%include pair_state.rs
 //%include pair_assert.rs
 //%include pair_provide.rs
